@@ -92,6 +92,9 @@ type Kind struct {
 	Options   []Option
 	Extra     []*Override
 	Probes    []Probe
+	// Expect (optional): an absolute expectation about the behaviour of the object built with the named override for the
+	// named probe; returns the reason when it is not met
+	Expect func(override, probe, behaviour string) string
 
 	ovIdx map[string]*Override
 }
@@ -349,14 +352,30 @@ func kinds() []*Kind {
 					map[string]any{"expression": "Subject.ID == 'alice'", "message": "cat-denied"},
 				}}
 			},
+			// A repeats the expression text of the catalogue with its own message, B has it at another position without a
+			// message (the default message names the position): what a rule reports is its own configuration
 			Options: []Option{{
 				Name: "expressions",
-				A:    []any{map[string]any{"expression": "Subject.ID == 'bob'", "message": "a-denied"}},
+				A:    []any{map[string]any{"expression": "Subject.ID == 'alice'", "message": "a-denied"}},
 				B: []any{
 					map[string]any{"expression": "Request.Method == 'GET'"},
-					map[string]any{"expression": "Subject.ID != 'bob'", "message": "b-denied"},
+					map[string]any{"expression": "Subject.ID == 'alice'"},
 				},
 			}},
+			Expect: func(ov, probe, beh string) string {
+				want, ok := map[string]string{"": "cat-denied", "<empty>": "cat-denied", "expressions": "a-denied",
+					"expressions=B": "expression 2 failed"}[ov]
+				if !ok || probe != "bob" {
+					return ""
+				}
+
+				if !strings.Contains(beh, want) {
+					return fmt.Sprintf("bob is denied, but not with the message of this object's own configuration (%q): %s", want,
+						strings.SplitN(beh, "\n", 2)[0])
+				}
+
+				return ""
+			},
 			Probes: subjectProbes()[:2],
 		},
 		{
@@ -459,11 +478,12 @@ func kinds() []*Kind {
 			Catalogue: func() map[string]any {
 				return map[string]any{
 					"token_url": issuer + "/token", "client_id": "cid", "client_secret": "secret",
-					"scopes": []any{"s1"}, "cache_ttl": "1m",
+					// not in lexicographic order: the order is part of what is sent to the token endpoint
+					"scopes": []any{"write", "read", "admin"}, "cache_ttl": "1m",
 				}
 			},
 			Options: []Option{
-				{Name: "scopes", A: []any{"s2", "s3"}},
+				{Name: "scopes", A: []any{"s3", "s2"}},
 				{Name: "cache_ttl", A: "0s", B: "4m"},
 				{Name: "header", A: map[string]any{"name": "X-Token", "scheme": "Tok"}},
 			},
